@@ -463,6 +463,15 @@ func checkZone(c zoneCase) error {
 		classes = append(classes, "expect-error:"+den.Err)
 	}
 	classes = append(classes, modelClasses(&c.Zone)...)
+	for i := range den.Recs {
+		if len(den.Recs[i].TTLAlts) > 0 {
+			classes = append(classes, "ttl:omitted-right-after-include-or-generate")
+			if den.Recs[i].MayFail {
+				classes = append(classes, "ttl:omitted-after-generate-or-include-without-own-ttl-source")
+			}
+			break
+		}
+	}
 	pbt.Note(textKey(&c), nontrivialZone(&c.Zone), classes...)
 	if len(c.Renderings) > 0 && len(c.Zone.Files) > 0 {
 		pbt.Sample("with-includes", showRendering(&c, c.Renderings[0]))
